@@ -1,7 +1,415 @@
 package main
 
-import "os"
+// Kernel streams (T-diff against the exact Lean models of lean/IstioModel/C14/Kernels.lean):
+//
+//	domains   the REAL dedupeDomains (core.VerifC12DedupeDomains) with one shared vhdomains set per case, on the
+//	          domain lists the REAL generateVirtualHostDomains produces for random services (mixed case, FQDN /
+//	          short-name collisions, aliases) and on adversarial lists
+//	              known <fqdns>              -> ok
+//	              dd <domains> <expanded>    -> <kept> | <sorted shared set>
+//	clusters  the REAL ClusterBuilder.normalizeClusters / normalizeClusterResources (zz_verif_c14.go)
+//	              nc <names> / nr <names>    -> <name#index of the kept ones>
+//	answer    the REAL EdsGenerator.Generate / RdsGenerator.Generate of a discovery server holding a fixed small
+//	          mesh, asked for defined and undefined names
+//	              eds <requested> <undefined> -> names=<sorted answered> empty=<sorted answered with no endpoint among the undefined>
+//	              rds <sidecar|router> <requested> -> names=<sorted answered>
+//
+// `oracle` evaluates the kernels' clauses on the real outputs, independent of the model.
 
-func genKernel(stream string, seed uint64, n int, path string) { os.Exit(2) }
-func execKernel(stream, ops, out string)                      { os.Exit(2) }
-func oracleKernel(stream, ops, out string)                    { os.Exit(2) }
+import (
+	"fmt"
+	"os"
+	"sort"
+	"strconv"
+	"strings"
+
+	endpoint "github.com/envoyproxy/go-control-plane/envoy/config/endpoint/v3"
+
+	"istio.io/istio/pilot/pkg/model"
+	"istio.io/istio/pilot/pkg/networking/core"
+	v3 "istio.io/istio/pilot/pkg/xds/v3"
+	"istio.io/istio/pkg/config/host"
+	"istio.io/istio/pkg/util/sets"
+	"verifharness/internal/wire"
+)
+
+// ---------------------------------------------------------------- gen
+
+var (
+	kHosts = []string{
+		"a.default.svc.cluster.local", "A.default.svc.cluster.local", "a.Default.svc.cluster.local", "b.default.svc.cluster.local",
+		"a.ns1.svc.cluster.local", "a.default", "a.default.svc", "a", "A", "foo.com", "FOO.com", "Foo.Com", "bar.foo.com", "*.foo.com",
+		"foo.com.default.svc.cluster.local", "default.svc.cluster.local", "svc.cluster.local", "*.default.svc.cluster.local", "10.0.0.1", "2001:db8::1",
+		"a.default.svc.cluster.local.", "x.local",
+	}
+	kProxyDomains = []string{"default.svc.cluster.local", "ns1.svc.cluster.local", "local", "foo.com", ""}
+	kClusterNames = []string{
+		"outbound|80||a.default.svc.cluster.local", "outbound|80||b.default.svc.cluster.local", "outbound|80|v1|a.default.svc.cluster.local",
+		"outbound|80||A.default.svc.cluster.local", "BlackHoleCluster", "PassthroughCluster", "inbound|80||", "ef-cluster", "", "outbound|80||",
+	}
+)
+
+func genKernel(stream string, seed uint64, n int, path string) {
+	r := wire.NewRng(seed*104729 + uint64(len(stream))*31 + 14)
+	o := wire.Create(path)
+	defer o.Close()
+	for i := 1; i <= n; i++ {
+		o.Line("case", strconv.Itoa(i), stream)
+		switch stream {
+		case "domains":
+			genDomainsCase(r.Fork(), o)
+		case "clusters":
+			k := 1 + r.Intn(4)
+			for j := 0; j < k; j++ {
+				m := r.Intn(9)
+				var names []string
+				for x := 0; x < m; x++ {
+					names = append(names, wire.Pick(r, kClusterNames))
+				}
+				if r.Chance(1, 2) {
+					o.Line("nc", wire.EncList(names))
+				} else {
+					o.Line("nr", wire.EncList(names))
+				}
+			}
+		case "answer":
+			k := 1 + r.Intn(3)
+			for j := 0; j < k; j++ {
+				if r.Chance(1, 2) {
+					var req, unk []string
+					for x, m := 0, r.Intn(7); x < m; x++ {
+						if r.Chance(1, 2) {
+							req = append(req, wire.Pick(r, answerDefinedEds))
+						} else {
+							u := wire.Pick(r, answerUnknownEds)
+							req = append(req, u)
+							unk = append(unk, u)
+						}
+					}
+					o.Line("eds", wire.EncList(req), wire.EncSet(unk))
+				} else {
+					var req []string
+					for x, m := 0, r.Intn(7); x < m; x++ {
+						req = append(req, wire.Pick(r, answerRds))
+					}
+					o.Line("rds", wire.Pick(r, []string{"sidecar", "router"}), wire.EncList(req))
+				}
+			}
+		default:
+			fmt.Fprintln(os.Stderr, "unknown stream", stream)
+			os.Exit(2)
+		}
+	}
+}
+
+func genDomainsCase(r *wire.Rng, o *wire.Out) {
+	pd := wire.Pick(r, kProxyDomains)
+	node := &model.Proxy{DNSDomain: pd, Metadata: &model.NodeMetadata{}}
+	n := 1 + r.Intn(5)
+	type call struct{ dom, alt []string }
+	var calls []call
+	var known []string
+	lp := wire.Pick(r, []int{0, 80, 8080})
+	for i := 0; i < n; i++ {
+		if r.Chance(1, 5) { // adversarial raw lists
+			var d, a []string
+			for x, m := 0, 1+r.Intn(5); x < m; x++ {
+				h := wire.Pick(r, kHosts)
+				d = append(d, h)
+				if r.Chance(1, 3) {
+					a = append(a, h)
+				}
+			}
+			calls = append(calls, call{d, a})
+			continue
+		}
+		h := wire.Pick(r, kHosts)
+		port := wire.Pick(r, []int{80, 8080})
+		svc := &model.Service{Hostname: host.Name(h), DefaultAddress: wire.Pick(r, []string{"", "10.0.0.1", "0.0.0.0", "10.0.0.2"})}
+		if r.Chance(1, 5) {
+			svc.Attributes.Aliases = []model.NamespacedHostname{{Hostname: host.Name(wire.Pick(r, kHosts)), Namespace: "default"}}
+		}
+		d, a := core.VerifC12GenerateVirtualHostDomains(svc, lp, port, node)
+		calls = append(calls, call{d, a})
+		known = append(known, h, h+":"+strconv.Itoa(port))
+	}
+	if r.Chance(1, 5) {
+		known = append(known, wire.Pick(r, kHosts))
+	}
+	o.Line("known", wire.EncSet(known))
+	for _, c := range calls {
+		o.Line("dd", wire.EncList(c.dom), wire.EncList(c.alt))
+	}
+}
+
+// ---------------------------------------------------------------- the fixed mesh of the `answer` stream
+
+var (
+	// defined names (the last one names a subset no DestinationRule defines: it is answered with the service's
+	// endpoints - what those are is C13's subject, here only that it is answered)
+	answerDefinedEds = []string{"outbound|80||a.default.svc.cluster.local", "outbound|80||b.default.svc.cluster.local", "outbound|9000||b.default.svc.cluster.local",
+		"outbound|80|v1|a.default.svc.cluster.local", "outbound|80|nosuchsubset|a.default.svc.cluster.local"}
+	// names of a port / service / shape nothing defines: answered with an EMPTY load assignment
+	answerUnknownEds = []string{"outbound|9999||a.default.svc.cluster.local", "outbound|80||nosuch.default.svc.cluster.local", "bogus",
+		"inbound|80||", "outbound|80||", "outbound|80|v1|nosuch.default.svc.cluster.local", "|||", "outbound|notaport||a.default.svc.cluster.local"}
+	answerRds = []string{"80", "9000", "9999", "bogus-route", "http.80", "http.9999", "https.443.https.gw.istio-system", "https.443.bogus.gw.istio-system",
+		"a.default.svc.cluster.local:80", "bogus.default.svc.cluster.local:80", "", "unix://x", "http_proxy"}
+)
+
+type answerWorld struct {
+	w       *world
+	sidecar *model.Proxy
+	router  *model.Proxy
+}
+
+func newAnswerWorld() *answerWorld {
+	m := &meshCase{opts: map[string]string{}}
+	m.svcs = []svcDesc{
+		{Host: "a.default.svc.cluster.local", Ns: "default", Vip: "10.0.0.1", Ports: []portDesc{{"http", 80, "HTTP"}}, Res: "vip"},
+		{Host: "b.default.svc.cluster.local", Ns: "default", Vip: "10.0.0.2", Ports: []portDesc{{"http", 80, "HTTP"}, {"tcp", 9000, "TCP"}}, Res: "vip"},
+		{Host: "istio-ingressgateway.istio-system.svc.cluster.local", Ns: "istio-system", Vip: "10.0.0.3", Ports: []portDesc{{"http2", 80, "HTTP2"}, {"https", 443, "HTTPS"}}, Res: "vip"},
+	}
+	m.eps = []epDesc{
+		{Host: "a.default.svc.cluster.local", PortName: "http", IP: "10.1.0.1", Labels: map[string]string{"version": "v1"}},
+		{Host: "a.default.svc.cluster.local", PortName: "http", IP: "10.1.0.2", Labels: map[string]string{"version": "v2"}},
+		{Host: "b.default.svc.cluster.local", PortName: "http", IP: "10.1.0.3"},
+		{Host: "b.default.svc.cluster.local", PortName: "tcp", IP: "10.1.0.3"},
+		{Host: "istio-ingressgateway.istio-system.svc.cluster.local", PortName: "http2", IP: "10.2.0.1", Labels: map[string]string{"istio": "ingressgateway"}},
+		{Host: "istio-ingressgateway.istio-system.svc.cluster.local", PortName: "https", IP: "10.2.0.1", Labels: map[string]string{"istio": "ingressgateway"}},
+	}
+	m.cfgs = []cfgDesc{
+		{Kind: "DestinationRule", Ns: "default", Name: "dr", Ts: 1001, JSON: `{"host":"a.default.svc.cluster.local","subsets":[{"name":"v1","labels":{"version":"v1"}}]}`},
+		{Kind: "Gateway", Ns: "istio-system", Name: "gw", Ts: 1002, JSON: `{"selector":{"istio":"ingressgateway"},"servers":[{"port":{"number":80,"name":"http","protocol":"HTTP"},"hosts":["*"]},` +
+			`{"port":{"number":443,"name":"https","protocol":"HTTPS"},"hosts":["foo.com"],"tls":{"mode":"SIMPLE","credentialName":"c"}}]}`},
+	}
+	w, fail := buildWorld(m)
+	if fail != "" {
+		fmt.Fprintln(os.Stderr, "answer world:", fail)
+		os.Exit(2)
+	}
+	return &answerWorld{
+		w:       w,
+		sidecar: w.proxy(pushDesc{Type: "sidecar", Ns: "default", Labels: map[string]string{"app": "x"}, IPs: []string{"10.5.0.1"}}),
+		router:  w.proxy(pushDesc{Type: "router", Ns: "istio-system", Labels: map[string]string{"istio": "ingressgateway"}, IPs: []string{"10.2.0.1"}}),
+	}
+}
+
+func (a *answerWorld) gen(px *model.Proxy, typ string, names []string) (res model.Resources, fail string) {
+	fail = guarded("answer", 20e9, func() {
+		req := &model.PushRequest{Push: a.w.s.PushContext(), Forced: true, Reason: model.NewReasonStats(model.ConfigUpdate)}
+		wr := &model.WatchedResource{TypeUrl: typ, ResourceNames: sets.New(names...)}
+		r, _, err := a.w.s.Discovery.Generators[typ].Generate(px, wr, req)
+		if err != nil {
+			panic(err)
+		}
+		res = r
+	})
+	return res, fail
+}
+
+// ---------------------------------------------------------------- exec / oracle
+
+type kernelRun struct {
+	vh     sets.String
+	known  sets.String
+	answer *answerWorld
+	// oracle bookkeeping
+	keptLower map[string]bool
+	fail      string
+}
+
+func (k *kernelRun) setFail(f string) {
+	if k.fail == "" {
+		k.fail = f
+	}
+}
+
+func (k *kernelRun) step(f []string) (out string) {
+	defer func() {
+		if r := recover(); r != nil {
+			out = "crash"
+			k.setFail("crash " + f[0])
+		}
+	}()
+	switch f[0] {
+	case "case":
+		k.vh, k.known, k.keptLower, k.fail = sets.String{}, sets.String{}, map[string]bool{}, ""
+		return "ok"
+	case "known":
+		k.known = sets.New(wire.DecList(f[1])...)
+		return "ok"
+	case "dd":
+		doms, exp := wire.DecList(f[1]), wire.DecList(f[2])
+		in := append([]string{}, doms...)
+		kept := core.VerifC12DedupeDomains(in, k.vh, exp, k.known)
+		// the kernel's clauses, on the real output
+		for _, d := range kept {
+			l := asciiLower(d)
+			if k.keptLower[l] {
+				k.setFail("dup-domain " + wire.Enc(d))
+			}
+			k.keptLower[l] = true
+			if contains(exp, d) && k.known.Contains(d) {
+				k.setFail("expanded-known " + wire.Enc(d))
+			}
+		}
+		if !isSubsequence(kept, doms) {
+			k.setFail("not-a-sublist")
+		}
+		return wire.EncList(kept) + " | " + wire.EncSet(k.vh.UnsortedList())
+	case "nc", "nr":
+		names := wire.DecList(f[1])
+		var kept []string
+		if f[0] == "nc" {
+			kept = core.VerifC14NormalizeClusters(names)
+		} else {
+			kept = core.VerifC14NormalizeClusterResources(names)
+		}
+		seen := map[string]bool{}
+		for _, kn := range kept {
+			i := strings.LastIndex(kn, "#")
+			n, idx := kn[:i], kn[i+1:]
+			if seen[n] {
+				k.setFail("cds-unique " + wire.Enc(n))
+			}
+			seen[n] = true
+			first := -1
+			for j, x := range names {
+				if x == n {
+					first = j
+					break
+				}
+			}
+			if strconv.Itoa(first) != idx {
+				k.setFail("first-wins " + wire.Enc(n))
+			}
+		}
+		for _, n := range names {
+			if !seen[n] {
+				k.setFail("name-lost " + wire.Enc(n))
+			}
+		}
+		return wire.EncList(kept)
+	case "eds":
+		if k.answer == nil {
+			k.answer = newAnswerWorld()
+		}
+		req, unk := wire.DecList(f[1]), wire.DecList(f[2])
+		res, fail := k.answer.gen(k.answer.sidecar, v3.EndpointType, req)
+		if fail != "" {
+			k.setFail(fail)
+			return "crash"
+		}
+		var names, empty []string
+		got := map[string]bool{}
+		for _, r := range res {
+			cla := &endpoint.ClusterLoadAssignment{}
+			if err := r.Resource.UnmarshalTo(cla); err != nil {
+				continue
+			}
+			names = append(names, cla.ClusterName)
+			got[cla.ClusterName] = true
+			n := 0
+			for _, l := range cla.Endpoints {
+				n += len(l.LbEndpoints)
+			}
+			if n == 0 && contains(unk, cla.ClusterName) {
+				empty = append(empty, cla.ClusterName)
+			}
+		}
+		for _, n := range req {
+			if !got[n] {
+				k.setFail("unanswered-eds " + wire.Enc(n))
+			}
+		}
+		if d, dup := firstDup(names); dup {
+			k.setFail("eds-unique " + wire.Enc(d))
+		}
+		return "names=" + wire.EncSet(names) + " empty=" + wire.EncSet(empty)
+	case "rds":
+		if k.answer == nil {
+			k.answer = newAnswerWorld()
+		}
+		px := k.answer.sidecar
+		if f[1] == "router" {
+			px = k.answer.router
+		}
+		req := wire.DecList(f[2])
+		res, fail := k.answer.gen(px, v3.RouteType, req)
+		if fail != "" {
+			k.setFail(fail)
+			return "crash"
+		}
+		var names []string
+		got := map[string]bool{}
+		for _, r := range res {
+			names = append(names, r.Name)
+			got[r.Name] = true
+		}
+		for _, n := range req {
+			if !got[n] {
+				k.setFail("unanswered-rds " + wire.Enc(n))
+			}
+		}
+		if d, dup := firstDup(names); dup {
+			k.setFail("rds-unique " + wire.Enc(d))
+		}
+		return "names=" + wire.EncSet(names)
+	}
+	return "bad-op"
+}
+
+func contains(l []string, x string) bool {
+	for _, y := range l {
+		if x == y {
+			return true
+		}
+	}
+	return false
+}
+
+func isSubsequence(sub, l []string) bool {
+	i := 0
+	for _, x := range l {
+		if i < len(sub) && sub[i] == x {
+			i++
+		}
+	}
+	return i == len(sub)
+}
+
+func execKernel(stream, ops, outPath string) {
+	o := wire.Create(outPath)
+	defer o.Close()
+	k := &kernelRun{}
+	for _, f := range wire.ReadLines(ops) {
+		o.Line(k.step(f))
+		o.Flush()
+	}
+}
+
+func oracleKernel(stream, ops, outPath string) {
+	o := wire.Create(outPath)
+	defer o.Close()
+	k := &kernelRun{}
+	in := false
+	flush := func() {
+		if in {
+			if k.fail == "" {
+				o.Line("OK")
+			} else {
+				o.Line("FAIL " + k.fail)
+			}
+		}
+	}
+	for _, f := range wire.ReadLines(ops) {
+		if f[0] == "case" {
+			flush()
+			in = true
+		}
+		k.step(f)
+	}
+	flush()
+}
+
+var _ = sort.Strings
